@@ -98,7 +98,8 @@ class C13(BaseCheck):
   REQUIRED_ANCHORS = ANCHORS
   REQUIRED_CLASSES = ('headers', 'ctx:ascii', 'ctx:utf8', 'ctx:empty', 'ctx:long', 'ctx:none',
                       'deadline', 'client-id', 'reply:OK', 'reply:ERROR', 'reply:NACK', 'reply:Rerr',
-                      'reply:BAD_Rerr', 'tdiscarded', 'wire', 'wire:requests-while-opening', 'wire:simultaneous-discards', 'wire:stalled-across-ping')
+                      'reply:BAD_Rerr', 'tdiscarded', 'wire', 'wire:requests-while-opening', 'wire:simultaneous-discards', 'wire:stalled-across-ping',
+                      'wire:short-sends')
   ASSUMPTIONS = ('context keys/values are text; encoded length of each <= 32767 bytes (int16 length field)',
                  'deadline context = (whole-second wall-clock timestamp in ns, absolute deadline in ns), '
                  'deadline compared with 1us tolerance for the float->ns conversion')
@@ -399,6 +400,11 @@ class C13(BaseCheck):
                    policy=Policy(), open_timeout=0 if opening else None,
                    connect_latency=rng.choice([0.02, 0.2]) if opening else 0.0005)
     srv = w.servers[0]
+    short = rng.random() < 0.3
+    if short:
+      # a socket whose send() takes only part of a buffer (small socket buffer / frame larger than
+      # the free space): the frame must still arrive whole
+      srv.sim.send_limit = rng.choice([1, 5, 33, 150])
     sent = []
     for _ in range(rng.randint(2, 8)):
       s_ = gen_text(rng, False)
@@ -494,6 +500,7 @@ class C13(BaseCheck):
     env.advance(0.1)
     out.classes = ['wire', 'wire:discards'] + (['wire:stalled-across-ping'] if stalled else [])
     out.classes = out.classes + (['wire:simultaneous-discards'] if len(want) > 1 else [])
+    out.classes = out.classes + (['wire:short-sends'] if short else [])
     out.nontrivial = len(srv.requests) > 0
     out.extra = {'wire_frames': len(srv.requests), 'pings_seen': len(srv.pings)}
     out.sig = ('wire', client_id[:8], len(sent), stalled)
